@@ -346,6 +346,49 @@ func c02Enumerate(tier string, seed int64, emit func(string, any)) {
 			}
 		}
 	}
+	// ---- F'': dicts whose own keys (or whose prototype's keys) are spelled like the built-in dict methods: an own entry wins over
+	// the prototype chain, which wins over the built-in method; item access never sees methods
+	{
+		mk := func(keys ...string) *Node {
+			n := &Node{K: KDict}
+			for i, k := range keys {
+				n.Kids = append(n.Kids, Str(k), Int(int64(i+5)))
+			}
+			return n
+		}
+		q := Var("q")
+		for _, init := range [][]*Node{
+			{Assign("q", mk("len", "items", "keys", "values", "k"))}, {Assign("q", mk("k"))}, {Assign("b", mk("len", "keys")), Assign("q", &Node{K: KDict, Kids: []*Node{Str("__proto__"), Var("b"), Str("items"), Int(1)}})},
+		} {
+			for _, name := range []string{"len", "items", "keys", "values", "k", "nosuch"} {
+				at := &Node{K: KAttr, A: q, S: name}
+				one("F dict keys named like methods", append(append([]*Node{}, init...), at))
+				one("F dict keys named like methods", append(append([]*Node{}, init...), Index(q, Str(name))))
+				one("F dict keys named like methods", append(append([]*Node{}, init...), Bin("+", at, Int(1))))
+				if name != "values" && name != "items" && name != "keys" { // (their result lists the entries in map order)
+					one("F dict keys named like methods", append(append([]*Node{}, init...), Method(q, name)))
+				}
+				one("F dict keys named like methods", append(append([]*Node{}, init...), &Node{K: KAssignAttr, S: "q", S2: name, A: Int(9)}, at, Arr(at, Index(q, Str(name)))))
+			}
+		}
+	}
+	// ---- G': computed values with a private space (this) that evaluations write to, including evaluations that fail half-way:
+	// what an evaluation wrote before it failed stays written
+	{
+		thisN := &Node{K: KThisAttr, S: "n"}
+		bump := &Node{K: KAssignThis, S: "n", A: Bin("+", Bin("??", thisN, Int(0)), Int(1))}
+		for _, body := range []*Node{Bin("+", bump, Var("step")), Bin("+", Bin("*", bump, Int(10)), Index(Var("step"), Int(0))), Arr(bump, bump, Call(Var("step")))} {
+			def := &Node{K: KAssignComp, S: "c", A: body}
+			for _, fix := range [][]*Node{{Assign("step", Int(10))}, {Assign("step", Arr(Int(4)))}, {&Node{K: KFunc, S: "step", Body: []*Node{Int(3)}}}, {Assign("step", Null())}} {
+				for _, probe := range [][]*Node{{Var("c")}, {&Node{K: KAttr, A: &Node{K: KRawVar, S: "c"}, S: "n"}}, {Bin("+", Var("c"), Var("c"))}} {
+					v++
+					emit("G computed values with side effects", c02Case{Progs: [][]*Node{{def}, {Var("c")}, fix, {Var("c")}, probe}, Variant: v})
+					v++
+					emit("G computed values with side effects", c02Case{Progs: [][]*Node{{def}, {Var("c")}, {Var("c")}, fix, probe, {Var("c")}}, Variant: v})
+				}
+			}
+		}
+	}
 	// ---- H: dice under min / max mode
 	var dterms []*Node
 	for xx := 0; xx <= 3; xx++ {
